@@ -1,7 +1,7 @@
 """C04 additions: necessary conditions of the '@/@@' and ring-closure-mark clauses that are visible in the code.
 
 S4 parity: the value `_should_invert_chirality` tests is the parity of the number of inversions of the out-bond
-   permutation.  Decided for every list length 0..4 (a chiral centre has at most four neighbours) by running the
+   permutation.  Decided for every list length 0..5 (a tetrahedral centre has at most four neighbours; five is margin) by running the
    abstract interpreter on the counting code with a list of that many *symbolic* distinct integers: the comparison
    outcomes partition the input space into the n! total orders, on each of which the counter is a constant whose
    parity must equal that of the order's inversion number.  No concrete list is ever evaluated.
@@ -23,15 +23,44 @@ MG = "selfies.mol_graph.MolecularGraph"
 
 
 # ----------------------------------------------------------------------------- S4
+def _parity_of(e):
+    """(counter expression, True if the expression is true for ODD counts) for `c % 2 != 0`, `c % 2 == 1`, `c % 2`,
+    `bool(c % 2)`, `c & 1`; None otherwise"""
+    if isinstance(e, ast.Call) and unparse(e.func) == "bool" and len(e.args) == 1:
+        return _parity_of(e.args[0])
+    if isinstance(e, ast.BinOp) and ((isinstance(e.op, ast.Mod) and isinstance(e.right, ast.Constant) and e.right.value == 2)
+                                     or (isinstance(e.op, ast.BitAnd) and isinstance(e.right, ast.Constant) and e.right.value == 1)):
+        return e.left, True
+    if isinstance(e, ast.UnaryOp) and isinstance(e.op, ast.Not):
+        r = _parity_of(e.operand)
+        return (r[0], not r[1]) if r else None
+    if isinstance(e, ast.Compare) and len(e.ops) == 1 and isinstance(e.comparators[0], ast.Constant) and e.comparators[0].value in (0, 1):
+        r = _parity_of(e.left)
+        if r is None:
+            return None
+        c = e.comparators[0].value
+        if isinstance(e.ops[0], ast.Eq):
+            return r[0], (r[1] if c == 1 else not r[1])
+        if isinstance(e.ops[0], ast.NotEq):
+            return r[0], (r[1] if c == 0 else not r[1])
+    return None
+
+
 def _perm_expr(f):
-    """(the Return whose value is `<e> % 2 != 0` / `== 1`, e) of the parity decision"""
+    """(return statement, counter expression, odd_is_true) of the parity decision: the returned value is a parity test of
+    a counter, directly or through one local name"""
     for r in own_nodes(f.node):
-        if isinstance(r, ast.Return) and isinstance(r.value, ast.Compare) and isinstance(r.value.left, ast.BinOp) \
-                and isinstance(r.value.left.op, ast.Mod) and isinstance(r.value.left.right, ast.Constant) and r.value.left.right.value == 2:
-            c = r.value.comparators[0]
-            if isinstance(c, ast.Constant) and c.value in (0, 1):
-                odd_is_true = (isinstance(r.value.ops[0], ast.NotEq) and c.value == 0) or (isinstance(r.value.ops[0], ast.Eq) and c.value == 1)
-                return r, r.value.left.left, odd_is_true
+        if not (isinstance(r, ast.Return) and r.value is not None):
+            continue
+        e = r.value
+        if isinstance(e, ast.Name):
+            defs = [n.value for n in own_nodes(f.node) if isinstance(n, ast.Assign) and len(n.targets) == 1
+                    and isinstance(n.targets[0], ast.Name) and n.targets[0].id == e.id]
+            if len(defs) == 1:
+                e = defs[0]
+        p = _parity_of(e)
+        if p is not None:
+            return r, p[0], p[1]
     return None
 
 
@@ -73,7 +102,7 @@ def check_parity(ctx, rep, RULE="S4"):
         raise AnalysisError("inversion counting code of _should_invert_chirality not located")
     n_orders = 0
     bad = []
-    for n in range(0, 5):
+    for n in range(0, 6):
         syms = [Lin.var(("p", n, k)) for k in range(n)]
         perm = Tup([Num(x) for x in syms], "list")
         for order in itertools.permutations(range(n)):
@@ -111,8 +140,8 @@ def check_parity(ctx, rep, RULE="S4"):
         n, order, why = bad[0]
         ranks = [order.index(i) + 1 for i in range(n)]
         w = "for out-bond positions ordered like %s the code gives %s: the parity differs from the permutation's, so the centre is " \
-            "inverted when it should not be (or the reverse); %d of %d orderings of up to 4 neighbours are wrong" % (ranks, why, len(bad), n_orders)
-    rep.ob(RULE, not bad, ret, f, construct="parity of the out-bond permutation (%d total orders of 0..4 symbolic elements)" % n_orders,
+            "inverted when it should not be (or the reverse); %d of %d orderings of up to 5 neighbours are wrong" % (ranks, why, len(bad), n_orders)
+    rep.ob(RULE, not bad, ret, f, construct="parity of the out-bond permutation (%d total orders of 0..5 symbolic elements)" % n_orders,
            how="counter parity == inversion parity on every order", witness=w, nontrivial=True, key="inversion-parity")
     rep.floor(RULE, 2)
 
@@ -152,6 +181,20 @@ def check_ring_flag(ctx, rep, RULE="S5"):
                 if isinstance(t.value, ast.Attribute) and t.value.attr == field and isinstance(t.slice, ast.Name) \
                         and isinstance(st.value, ast.Constant) and st.value.value is True:
                     setters[t.slice.id] = st
+        # ... or through a helper of the class called unconditionally with the endpoint: self._mark(a)
+        for st in R.node.body:
+            if isinstance(st, ast.Expr) and isinstance(st.value, ast.Call) and isinstance(st.value.func, ast.Attribute) \
+                    and isinstance(st.value.func.value, ast.Name) and st.value.func.value.id == R.posparams[0]:
+                h = cls.methods.get(st.value.func.attr)
+                if h is None:
+                    continue
+                for hs in h.node.body:
+                    if isinstance(hs, ast.Assign) and isinstance(hs.targets[0], ast.Subscript) and isinstance(hs.targets[0].value, ast.Attribute) \
+                            and hs.targets[0].value.attr == field and isinstance(hs.targets[0].slice, ast.Name) \
+                            and isinstance(hs.value, ast.Constant) and hs.value.value is True and hs.targets[0].slice.id in h.posparams:
+                        k = h.posparams.index(hs.targets[0].slice.id) - 1
+                        if 0 <= k < len(st.value.args) and isinstance(st.value.args[k], ast.Name):
+                            setters[st.value.args[k].id] = st
         missing = sorted(ends - set(setters))
         rep.ob(RULE, not missing, R.node, R, construct="ring flag %s set in add_ring_bond" % field, how="unconditionally True for both endpoints %s" % sorted(ends),
                witness=None if not missing else "add_ring_bond does not mark endpoint(s) %s as carrying a ring bond: their chirality is never re-examined "
@@ -169,6 +212,14 @@ def check_ring_flag(ctx, rep, RULE="S5"):
                         and isinstance(n.func.value, ast.Attribute) and n.func.value.attr == field and n.args \
                         and not (isinstance(n.args[-1], ast.Constant) and n.args[-1].value is False):
                     others.append((m, n))
+        helper_names = {st.value.func.attr for st in R.node.body if isinstance(st, ast.Expr) and isinstance(st.value, ast.Call)
+                        and isinstance(st.value.func, ast.Attribute)}
+        only_from_R = set()
+        for hn in helper_names:
+            h = cls.methods.get(hn)
+            if h is not None and all(g is R for g in ctx.db.funcs.values() for s_ in ctx.cg.sites(g) if h in s_.callees):
+                only_from_R.add(hn)
+        others = [(m, n) for m, n in others if m.name not in only_from_R]
         for m, n in others:
             rep.ob(RULE, False, n, m, construct=unparse(n)[:60], witness="%s marks an atom as carrying a ring bond without adding one" % m.name,
                    nontrivial=True, key="flag-set-elsewhere/%s" % m.name)
